@@ -29,9 +29,9 @@ EXTENDS Server, Json
 
 CONSTANTS GenMode, MaxChanges
 
-VARIABLES hist, gph, gchg
+VARIABLES hist, gph, gchg, gconn, gn
 
-gvars == <<vars, hist, gph, gchg>>
+gvars == <<vars, hist, gph, gchg, gconn, gn>>
 
 H(r) == hist' = Append(hist, r)
 
@@ -49,23 +49,36 @@ GConnect ==
     /\ H([a |-> "Connect", cmd |-> x[1], kind |-> x[2], want |-> x[3], user |-> x[4],
           exp |-> out, sid |-> IF out.ok THEN Len(sessions) + 1 ELSE 0])
 
+\* The script is a sequence of things the CLIENT does; it does not stop where
+\* the intended design would have closed the connection or established no
+\* session: such steps are attempted all the same ("ghost": no action of the
+\* specification corresponds to them in the intended design), so that a real
+\* server which deviates there is still explored.
 GResume(sid) ==
   \E cmd \in AllCmds :
-    LET out == [ok |-> TRUE, encReal |-> sessions[sid].keyed] IN
-    /\ ReconnectResume(sid, cmd, out)
-    /\ H([a |-> "Resume", sid |-> sid, cmd |-> cmd, exp |-> out,
-          \* whether a key-less session may be resumed is C06's business
-          either |-> ~sessions[sid].keyed])
+    IF Len(sessions) >= sid
+    THEN LET out == [ok |-> TRUE, encReal |-> sessions[sid].keyed] IN
+         /\ ReconnectResume(sid, cmd, out)
+         /\ H([a |-> "Resume", sid |-> sid, cmd |-> cmd, exp |-> out, ghost |-> FALSE,
+               \* whether a key-less session may be resumed is C06's business
+               either |-> ~sessions[sid].keyed])
+    ELSE /\ UNCHANGED vars
+         /\ H([a |-> "Resume", sid |-> sid, cmd |-> cmd, exp |-> [ok |-> FALSE, encReal |-> FALSE],
+               ghost |-> TRUE, either |-> TRUE])
 
 GRaw ==
   \E cmd \in {"X", "R", "U"} :
     /\ RawCommand(cmd)
     /\ H([a |-> "Raw", cmd |-> cmd])
 
+\* a connection is open for business (a handler kept it alive)
+Alive == conn.st = "open" /\ conn.pending = None /\ conn.via # "raw"
+
 GFollowOn ==
   \E cmd \in AllCmds :
-    /\ FollowOn(cmd)
-    /\ H([a |-> "FollowOn", cmd |-> cmd])
+    IF Alive
+    THEN FollowOn(cmd) /\ H([a |-> "FollowOn", cmd |-> cmd, ghost |-> FALSE])
+    ELSE UNCHANGED vars /\ H([a |-> "FollowOn", cmd |-> cmd, ghost |-> TRUE])
 
 GDispatch ==
   \/ Run    /\ H([a |-> "Dispatch", cmd |-> conn.pending, exp |-> "run", lacks |-> "nothing"])
@@ -81,39 +94,36 @@ GenInit ==
   /\ Init
   /\ hist = << [a |-> "Init", ptab |-> ptab, atab |-> atab] >>
   /\ gph = "open"
-  /\ gchg = 0
+  /\ gchg = 0 /\ gconn = 0 /\ gn = 0
 
 Busy == conn.pending # None
 
-\* a connection is open for business (a handler kept it alive)
-Alive == conn.st = "open" /\ conn.pending = None
-
 GenNext ==
-  \/ /\ Busy /\ GDispatch /\ UNCHANGED <<gph, gchg>>
+  \/ /\ Busy /\ GDispatch /\ UNCHANGED <<gph, gchg, gconn, gn>>
   \* first action of a connection
-  \/ /\ ~Busy /\ gph = "open" /\ nconn = 0
+  \/ /\ ~Busy /\ gph = "open" /\ gconn = 0
      /\ \/ GConnect
         \/ (GenMode # "resume" /\ GRaw)
-     /\ gph' = "conn" /\ UNCHANGED gchg
-  \/ /\ ~Busy /\ gph = "open" /\ nconn = 1
+     /\ gph' = "conn" /\ gconn' = 1 /\ gn' = 1 /\ UNCHANGED gchg
+  \/ /\ ~Busy /\ gph = "open" /\ gconn = 1
      /\ \/ (GenMode = "two" /\ (GConnect \/ GRaw))
-        \/ (Len(sessions) >= 1 /\ GResume(1))
-     /\ gph' = "conn" /\ UNCHANGED gchg
-  \* follow-on commands (not on connection 1 of mode "resume")
-  \/ /\ ~Busy /\ gph = "conn" /\ Alive
-     /\ ~(GenMode = "resume" /\ nconn = 1)
-     /\ GFollowOn /\ UNCHANGED <<gph, gchg>>
+        \/ GResume(1)
+     /\ gph' = "conn" /\ gconn' = 2 /\ gn' = 1 /\ UNCHANGED gchg
+  \* follow-on commands (not on connection 1 of mode "resume"; none after a raw command:
+  \* Server.run always closes)
+  \/ /\ ~Busy /\ gph = "conn" /\ gn < MaxCmds /\ conn.via # "raw"
+     /\ ~(GenMode = "resume" /\ gconn = 1)
+     /\ GFollowOn /\ gn' = gn + 1 /\ UNCHANGED <<gph, gchg, gconn>>
   \* the client hangs up
   \/ /\ ~Busy /\ gph = "conn"
      /\ H([a |-> "EndConn"])
-     /\ gph' = IF GenMode = "single" \/ nconn >= MaxConns \/ (GenMode = "resume" /\ Len(sessions) = 0)
-               THEN "done" ELSE "between"
-     /\ UNCHANGED <<vars, gchg>>
+     /\ gph' = IF GenMode = "single" \/ gconn >= MaxConns THEN "done" ELSE "between"
+     /\ UNCHANGED <<vars, gchg, gconn, gn>>
   \* reconfiguration between connections
   \/ /\ gph = "between" /\ gchg < MaxChanges
-     /\ GChange /\ gchg' = gchg + 1 /\ UNCHANGED gph
+     /\ GChange /\ gchg' = gchg + 1 /\ UNCHANGED <<gph, gconn, gn>>
   \/ /\ gph = "between"
-     /\ gph' = "open" /\ UNCHANGED <<vars, hist, gchg>>
+     /\ gph' = "open" /\ UNCHANGED <<vars, hist, gchg, gconn, gn>>
 
 GenSpec == GenInit /\ [][GenNext]_gvars
 
